@@ -1,6 +1,7 @@
 // ---- successor position and packed-move consistency (continues spec/rules_base.rs) ----
+/// castling: the king steps two files from its original square (e1/e8) towards a rook
 pub open spec fn is_castle_rule(piece: u64, src: u32, dst: u32) -> bool {
-    piece == 6 && row_of(src) == row_of(dst) && (dst == src + 2 || src == dst + 2)
+    piece == 6 && ((src == E1 && (dst == G1 || dst == C1)) || (src == E8 && (dst == G8 || dst == C8)))
 }
 pub open spec fn is_ep_rule(v: Pos, piece: u64, src: u32, dst: u32) -> bool {
     piece == 1 && v.ep != 0 && dst == v.ep && file_of(src) != file_of(dst)
@@ -20,6 +21,9 @@ pub open spec fn next_ep_rule(piece: u64, src: u32, dst: u32) -> u32 {
     if piece == 1 && (dst == src + 16 || src == dst + 16) { ((src + dst) / 2) as u32 } else { 0 }
 }
 
+pub open spec fn castle_rook_from(src: u32, dst: u32) -> u64 { if dst > src { sqm((dst + 1) as u32) } else { sqm((dst - 2) as u32) } }
+pub open spec fn castle_rook_to(src: u32, dst: u32) -> u64 { if dst > src { sqm((dst - 1) as u32) } else { sqm((dst + 1) as u32) } }
+
 /// The successor position the rules of chess define for moving the piece on `src` to `dst` (promoting to `promo`, 0 = none).
 pub open spec fn rules_succ(v: Pos, src: u32, dst: u32, promo: u64) -> Pos {
     let white = v.turn == 0;
@@ -32,9 +36,6 @@ pub open spec fn rules_succ(v: Pos, src: u32, dst: u32, promo: u64) -> Pos {
     let capm = capture_mask(v, piece, src, dst);
     let captured = piece_at(op, capm);
     let landed = if promo != 0 { promo } else { piece };
-    // castling: the rook jumps over the king (king side: h->f, queen side: a->d)
-    let rook_from = if dst > src { sqm((dst + 1) as u32) } else { sqm((dst - 2) as u32) };
-    let rook_to = if dst > src { sqm((dst - 1) as u32) } else { sqm((dst + 1) as u32) };
     let rooks0 = move_bits(me.rooks, 4, piece, landed, sm, dm);
     // castling rights: lost when the king or that rook leaves its home square, or something lands on the rook's home square
     let w_ks = v.w.ks && src != E1 && src != H1 && dst != H1;
@@ -45,7 +46,8 @@ pub open spec fn rules_succ(v: Pos, src: u32, dst: u32, promo: u64) -> Pos {
         pawns: move_bits(me.pawns, 1, piece, landed, sm, dm),
         knights: move_bits(me.knights, 2, piece, landed, sm, dm),
         bishops: move_bits(me.bishops, 3, piece, landed, sm, dm),
-        rooks: if castle { (rooks0 & !rook_from) | rook_to } else { rooks0 },
+        // castling: the rook jumps over the king (king side: h->f, queen side: a->d)
+        rooks: if castle { (rooks0 & !castle_rook_from(src, dst)) | castle_rook_to(src, dst) } else { rooks0 },
         queens: move_bits(me.queens, 5, piece, landed, sm, dm),
         kings: move_bits(me.kings, 6, piece, landed, sm, dm),
         qs: if white { w_qs } else { b_qs },
@@ -92,8 +94,9 @@ pub open spec fn move_wf(v: Pos, m: Move) -> bool {
     &&& src < 64 && dst < 64 && src != dst
     &&& piece != 0 && f_piece_moved(b) == piece
     &&& all_occ(me) & sqm(dst) == 0
-    &&& (promo == 0 || (2 <= promo <= 5 && piece == 1))
+    &&& (promo == 0 || (2 <= promo && promo <= 5 && piece == 1))
     &&& (piece == 1 ==> ((promo != 0) <==> row_of(dst) == (if white { 0u32 } else { 7u32 })))
+    &&& (piece == 1 ==> (if white { dst < src } else { dst > src }))      // pawns only move forward
     &&& (f_castle_move(b) != 0) == castle
     &&& (castle ==> {
             &&& src == (if white { E1 } else { E8 })
@@ -103,7 +106,7 @@ pub open spec fn move_wf(v: Pos, m: Move) -> bool {
         })
     // a two-square pawn step starts on the pawn's home rank and passes over an empty square onto an empty square
     &&& (piece == 1 && (dst == src + 16 || src == dst + 16) ==> {
-            &&& (if white { 48 <= src < 56 && src == dst + 16 } else { 8 <= src < 16 && dst == src + 16 })
+            &&& (if white { 48 <= src && src < 56 && src == dst + 16 } else { 8 <= src && src < 16 && dst == src + 16 })
             &&& (all_occ(me) | all_occ(op)) & (sqm(dst) | sqm(((src + dst) / 2) as u32)) == 0
         })
     &&& (f_en_passant_attack(b) != 0) == is_ep_rule(v, piece, src, dst)
